@@ -133,6 +133,11 @@ def run(facts, R):
                         e = e[2][0]
                     if e[0] == "field" and e[1][0] == "arg" and e[1][1] == 1:
                         return caps.get(e[2])
+                    if e[0] == "field":
+                        # a field of a captured value (`resp.body` with `resp` captured whole)
+                        inner = _cap(e[1])
+                        if inner is not None:
+                            return ("field", inner, e[2])
                     return None
                 det = "declared %s; closure emits %s" % (render(blen)[:80], [ct["callee"]["path"].rsplit("::", 2)[-1] + "(" + ", ".join(render(cs.op(a_))[:30] for a_ in ct["args"]) + ")" for _, ct in emits])
                 if len(emits) == 1 and len(emits[0][1]["args"]) == 2:
@@ -153,7 +158,7 @@ def run(facts, R):
             R.check(ok, "size-writer-pairs", b_.path, "a streamed frame declares the length of what its body closure writes",
                     "%s streams a frame whose declared body length and body writer are not one documented pair over the same value (%s): "
                     "the frame is not provably the buffered builder's frame for every input (empty slices included)" % (b_.path.rsplit("::", 1)[-1], det), t_.get("span"), det[:160])
-    R.floor("size-writer-pairs", n_stream, 2, "write_message_streaming call sites")
+    R.floor("size-writer-pairs", n_stream, 1, "write_message_streaming call sites")
 
     # aligned
     ab = facts.body("message::MessageBuilder::body_aligned_typed_slice")
